@@ -23,6 +23,8 @@ ASSUMPTIONS = ['the specification uses emd.sift.get_next_imf (captured before in
                'emd.spectra.frequency_transform for the instantaneous-frequency source',
                'configurations for which the specification itself cannot be evaluated (too-short signal for the frequency '
                'source) are counted as skipped, not judged',
+               'layers whose signal-plus-mask is flat up to rounding noise (non-zero neighbour differences below 1e-9 of the '
+               'amplitude) are a guard band: counted, not judged',
                'Pool.starmap chunking follows CPython; workers share no memory']
 
 SOURCES = ('zc', 'if', 0.3, 0.12, 'list3', 'list1')
@@ -140,6 +142,19 @@ def spec_first_freq(X, source, opts=None):
     return source
 
 
+def ill_conditioned(r, z, amp, nph):
+    """True if, for some phase, signal + mask has non-zero neighbour differences below 1e-9 of its amplitude."""
+    t = np.arange(r.shape[0])
+    for p in range(nph):
+        y = r[:, 0] + amp * np.cos(2 * np.pi * z * t + 2 * np.pi * p / nph)
+        d = np.abs(np.diff(y))
+        nz = d[d > 0]
+        top = np.max(np.abs(y))
+        if len(nz) and top > 0 and np.min(nz) < 1e-9 * top:
+            return True
+    return False
+
+
 def spec_freqs(x, source, step, cap, opts=None):
     X = x[:, None].astype(float)
     if source == 'list3':
@@ -169,6 +184,10 @@ def spec_compare(x, got, source, mode, ampkind, step, nph, cap, sift_thresh=1e-8
         else:
             s = got[:, k - 1].std()
         a = (AMPARRAY[k] if ampkind == 'array' else (0.0 if ampkind == 'zero' else 0.8)) * s
+        if a != 0 and ill_conditioned(r, freqs[k], a, nph):
+            # signal-plus-mask is flat up to rounding noise (e.g. a mask frequency of ~1e-17 from a degenerate first
+            # IMF): its "extrema" depend on the last bit of the mask - guard band, not judged
+            return ('GUARD', ''), k, freqs
         imf, flag = spec_mask_imf(r, freqs[k], a, nph, opts)
         err = np.max(np.abs(imf[:, 0] - got[:, k]))
         if not err <= scale:
@@ -253,6 +272,10 @@ def check_spec(case):
             bad, n, wfreq = spec_compare(x, got, source, mode, ampkind, step, nph, cap, opts=opts)
     except EMDSiftCovergeError:
         return Outcome(cls='spec-skipped', nontrivial=False)
+    if bad and bad[0] == 'GUARD':
+        out = Outcome(cls='spec-guard-band', nontrivial=False, viols=viols)
+        out.excluded = True
+        return out
     if bad:
         viols.append(('spec:%s' % bad[0], '%s: %s' % (tag, bad[1])))
     if len(gfreq) < got.shape[1] or not np.allclose(gfreq[:len(wfreq)], wfreq[:len(gfreq)], rtol=1e-12, atol=0):
